@@ -1,4 +1,60 @@
-import Heathcliff.Model.Galois
+import Heathcliff.Proofs.C04M
+
+/- Property theorems only (statements verbatim; proofs are the helper lemmas of Heathcliff/Proofs). -/
 namespace HC.C04
-theorem placeholder : galoisGenerator = 3 := rfl
+open HC
+open Finset
+
+/-- odd g is a bijection on indices mod N = 2^k: i ↦ (i·g) mod N is injective on [0, N) -/
+theorem odd_mul_injective {k g i j : Nat} (hg : g % 2 = 1) (hi : i < 2^k) (hj : j < 2^k)
+    (h : (i * g) % 2^k = (j * g) % 2^k) : i = j := HC.odd_mul_injective hg hi hj h
+
+/-- COEFFICIENT FORM: `apply` writes a_i to position (i·g mod N), negated iff ⌊i·g/N⌋ is odd — for every odd g, every N = 2^k -/
+theorem galoisApply_spec {k g : Nat} {m : Modulus} (hm : m.WF) (hg : g % 2 = 1) {a : Array Nat} (hs : a.size = 2^k)
+    (ha : ∀ i, i < 2^k → a.getD i 0 < m.value) :
+    ∃ r, galoisApply k a g m = .ok r ∧ r.size = 2^k ∧ ∀ i, i < 2^k →
+      r.getD ((i * g) % 2^k) 0 = (if ((i * g) / 2^k) % 2 = 1 then (m.value - a.getD i 0) % m.value else a.getD i 0) := HC.galoisApply_spec hm hg hs ha
+
+/-- … which is the substitution X ↦ X^g modulo X^N + 1: for any commutative ring and any x with x^N = −1,
+    Σ_j r_j x^j = Σ_i a_i (x^g)^i  whenever r is related to a as in `galoisApply_spec` (as ring elements) -/
+theorem subst_eval {R : Type} [CommRing R] {k g : Nat} (hg : g % 2 = 1) (x : R) (hx : x ^ (2^k) = -1) (a r : Nat → R)
+    (hr : ∀ i, i < 2^k → r ((i * g) % 2^k) = (if ((i * g) / 2^k) % 2 = 1 then - a i else a i)) :
+    ∑ j ∈ range (2^k), r j * x ^ j = ∑ i ∈ range (2^k), a i * (x ^ g) ^ i := HC.subst_eval hg x hx a r hr
+
+/-- NTT FORM, the table: entry i = index of the slot holding the evaluation at psi^(g·(2·brev i + 1)) -/
+theorem galoisTable_spec {k g i : Nat} (hg : g % 2 = 1) (hi : i < 2^k) :
+    (galoisTableNtt k g).getD i 0 = brev k ((((g * (2 * brev k i + 1)) % (2 * 2^k)) - 1) / 2) ∧
+    (galoisTableNtt k g).getD i 0 < 2^k := HC.galoisTable_spec hg hi
+
+/-- the defining property of that index: 2·brev(table i) + 1 ≡ g·(2·brev i + 1) (mod 2N) -/
+theorem galoisTable_exponent {k g i : Nat} (hg : g % 2 = 1) (hi : i < 2^k) :
+    (2 * brev k ((galoisTableNtt k g).getD i 0) + 1) % (2 * 2^k) = (g * (2 * brev k i + 1)) % (2 * 2^k) := HC.galoisTable_exponent hg hi
+
+/-- ROTATION STEP ↦ ELEMENT: 3^s for 0 < s < N/2, 3^(N/2 − |s|) for negative steps, 2N − 1 for step 0; refused otherwise -/
+theorem eltFromStep_spec {k : Nat} {s : Int} (hs : s.natAbs < 2^k / 2) (hs0 : s ≠ 0) :
+    eltFromStep k s = .ok (3 ^ (if s < 0 then 2^k / 2 - s.natAbs else s.natAbs) % (2 * 2^k)) := HC.eltFromStep_spec hs hs0
+
+theorem eltFromStep_zero (k : Nat) : eltFromStep k 0 = .ok (2 * 2^k - 1) := HC.eltFromStep_zero k
+
+/-- 3 has order N/2 modulo 2N (N = 2^k, k ≥ 2): 3^(N/2) ≡ 1 and 3^(N/4) ≢ 1 -/
+theorem three_order {k : Nat} (hk : 2 ≤ k) : 3 ^ (2^k / 2) % (2 * 2^k) = 1 ∧ 3 ^ (2^k / 4) % (2 * 2^k) ≠ 1 := HC.three_order hk
+
+/-- negative steps: 3^(N/2 − s) is the inverse of 3^s modulo 2N, so a rotation by −s undoes a rotation by s -/
+theorem step_inverse {k s : Nat} (hk : 2 ≤ k) (hs : s < 2^k / 2) :
+    (3 ^ s * 3 ^ (2^k / 2 - s)) % (2 * 2^k) = 1 := HC.step_inverse hk hs
+
+/-- composition of automorphisms multiplies the elements; rotations add their steps modulo N/2 -/
+theorem step_add {k a b : Nat} (hk : 2 ≤ k) :
+    (3 ^ a * 3 ^ b) % (2 * 2^k) = 3 ^ ((a + b) % (2^k / 2)) % (2 * 2^k) := HC.step_add hk
+
+/-! Three statements were false at degenerate corners (refuted in Proofs/C04M.lean) and are proved with the corner excluded:
+    3^(2^j) ≡ 1 + 2^(j+2) needs j ≥ 1; refusal of out-of-range steps needs (s ≠ 0 ∨ N ≥ 2); the default key set is complete for
+    k ≤ 62 (for k ≥ 63 the modulus 2N does not fit the code's u64 / i64 arithmetic at all; the library limits N to 2^17). -/
+theorem three_pow_two_pow_pos : type_of% @HC.three_pow_two_pow_pos := @HC.three_pow_two_pow_pos
+theorem eltFromStep_refuses' : type_of% @HC.eltFromStep_refuses' := @HC.eltFromStep_refuses'
+theorem eltsAll_contains_le : type_of% @HC.eltsAll_contains_le := @HC.eltsAll_contains_le
+
+/-- non-vacuity: N = 8: step 1 ↦ 3, step −1 ↦ 3^3 = 27 ≡ 11 (mod 16) -/
+example : eltFromStep 3 1 = .ok 3 ∧ eltFromStep 3 (-1) = .ok 11 := by decide
+
 end HC.C04
